@@ -148,7 +148,12 @@ func searchNormalForm(p *core.Prog, c0 *core.Ctx, kf *core.KnownFindings, runAt 
 			}
 			// backward step: a helper accepted early may stand in the way later
 			if best > 0 {
+				var inSet []string
 				for h := range set {
+					inSet = append(inSet, h)
+				}
+				sort.Strings(inSet)
+				for _, h := range inSet {
 					delete(set, h)
 					c2, q, n := eval(set)
 					if n >= 0 && n < best {
